@@ -31,6 +31,12 @@ def run_cases(ck, tier, seed, want_positions=False):
     v = vocab.get()
     singletons = set(v["tokens"]["singleton_composite_names"])
     bs = faults.behaviours(2500 if quick else 40000, seed + 7, ck, max_faults=2, max_steps=12 if quick else 30)
+    # documents of nested blocks only: object-level faults (unknown keyword, missing required keyword, replaced
+    # collection item) on blocks two and more levels down, singletons included
+    bs += faults.behaviours(300 if quick else 6000, seed + 9, ck, max_faults=2, max_steps=8 if quick else 14, tag="faults_blocks", blocks_only=True)
+    # ... and exhaustively: every document of <= 3 (thorough: 4) block openers / ENDs with one object-level fault
+    bs += faults.nested_object_behaviours(ck, 3 if quick else 4)
+    import mappyfile
     ref = faults.Reference()
     val = impl.validator()
     loads = impl.loader(include_position=True, expand_includes=False)
@@ -87,6 +93,15 @@ def run_cases(ck, tier, seed, want_positions=False):
             ck.violation("C07|false-error|%s|%s" % (root, ",".join(sorted(set(names_of(msgs0))))[:60]),
                          "validate reports %r for a document the schema accepts" % [m["error"][:80] for m in msgs0[:2]], {"text": text})
             continue
+        # the module-level function picks the schema from the root object's type (fresh Validator per call)
+        try:
+            pub = mappyfile.validate(d)
+        except Exception as ex:  # noqa: BLE001
+            ck.violation("C07|module-api|raised|%s|%s" % (root, type(ex).__name__), "mappyfile.validate raised %s on a valid document" % ex, {"text": text})
+            continue
+        if pub:
+            ck.violation("C07|false-error|module-api|%s" % root, "mappyfile.validate reports %r for a document the schema accepts" % [m["error"][:80] for m in pub[:2]], {"text": text})
+            continue
         if not fl:
             dv = faults.variant_of(d, variant)
             try:
@@ -141,6 +156,14 @@ def run_cases(ck, tier, seed, want_positions=False):
         if msgs is None:
             continue
         got = names_of(results["none"])
+        try:
+            pubnames = names_of(mappyfile.validate(d))
+        except Exception as ex:  # noqa: BLE001
+            ck.violation("C07|module-api|raised|%s|%s" % (root, type(ex).__name__), "mappyfile.validate raised %s (faults %s)" % (ex, kinds), {"text": text, "faults": fl})
+            continue
+        if sorted(pubnames) != sorted(got):
+            ck.violation("C07|module-api|differs|%s" % root, "mappyfile.validate names %r, Validator.validate with the root's schema names %r" % (sorted(pubnames), sorted(got)),
+                         {"text": text, "faults": fl})
         # a message for *every* faulty keyword / object: multiset, two faults with one name need two messages
         wantcount = {}
         for f in fl:
